@@ -155,7 +155,7 @@ func runMarshal(c *Ctx) {
 		for j := 0; j < 4; j++ {
 			prefix := randBytes(c.rng, []int{0, 0, 1, 3, 17}[c.rng.Intn(5)])
 			spare := []int{0, 0, 1, 7, 64, 4096}[c.rng.Intn(6)]
-			byValue := c.rng.Chance(40)
+			byValue := c.rng.Chance(40) && tc.T.Kind() != reflect.Ptr // a pointer passed "by value" is the by-pointer convention for its target
 			c.addMarshal(tc, v, prefix, spare, byValue, "marshal")
 		}
 	}
